@@ -24,6 +24,19 @@ def tier_params(tier):
     return {"cases": 1200, "wall_budget_s": 600}
 
 
+_ERR_SNIPPETS = {"reject": [], "generate": []}
+
+
+def prepare(repo):
+    """documents that the repo's own tests expect to be rejected, by translation mode"""
+    from . import c08
+    _ERR_SNIPPETS["reject"] = []
+    _ERR_SNIPPETS["generate"] = []
+    for s in c08.extract_test_snippets(repo):
+        if s["expects_error"] and s["mode"] in _ERR_SNIPPETS and "syntax" not in s["file"]:
+            _ERR_SNIPPETS[s["mode"]].append(s)
+
+
 def gen_case(rng, params, index):
     nsrc = rng.weighted([(5, 1), (3, 2), (2, 3)])
     stems = rng.sample(docs.STEMS, nsrc)
@@ -75,6 +88,11 @@ def gen_case(rng, params, index):
         bad = copy.deepcopy(good)
         bad["plant"] = {"where": where, "text": text, "kind": kind}
         btext, spans = docs.render(bad)
+        pool = _ERR_SNIPPETS["reject" if no_dyn else "generate"]
+        if pool and rng.chance(0.12):
+            # a whole document that the repo's own tests expect to be rejected in this mode (no span is known for it)
+            sn = rng.choice(pool)
+            kind, text, btext, spans = "test-snippet:" + sn["file"], sn["body"][:80].replace("\n", " "), sn["body"], {("plant",): None}
         steps.append({"op": "WRITE", "path": "proj/" + victim, "content": btext, "edit": "plant:" + kind})
         benign = None
         if rng.chance(0.3):
@@ -82,7 +100,7 @@ def gen_case(rng, params, index):
         # argument order: the faulty source first, in the middle or last
         order = list(range(len(srcs)))
         rng.shuffle(order)
-        g = gen(plant={"source": victim, "kind": kind, "span": list(spans[("plant",)]), "text": text}, benign=benign)
+        g = gen(plant={"source": victim, "kind": kind, "span": list(spans[("plant",)]) if spans[("plant",)] else None, "text": text}, benign=benign)
         g["sources"] = [rng.choice([srcs[i], "./" + srcs[i]]) for i in order]
         steps.append(g)
         if rng.chance(0.3):
@@ -235,14 +253,16 @@ def run_case(case, env):
             if p not in relpred and not fsmodel.is_temp(p):
                 vs.append(V("outputs-untouched", "fileset:unexpected-change", "path %s changed during a failing run" % p))
         diags = parse_diagnostics(res.stderr)
-        line, c0, c1 = plant["span"]
+        line, c0, c1 = plant["span"] if plant["span"] else (None, None, None)
         inside = []
         for d in diags:
             if d["sev"] != "error" or d["file"] is None:
                 continue
             if posixpath.basename(d["file"]) != posixpath.basename(plant["source"]):
                 continue
-            if d["line"] == line and c0 <= d["col"] < c1 and (d["len"] is None or d["col"] + d["len"] <= c1):
+            if line is None:
+                inside.append(d)        # whole-document snippet: any located error in that file
+            elif d["line"] == line and c0 <= d["col"] < c1 and (d["len"] is None or d["col"] + d["len"] <= c1):
                 inside.append(d)
         io_failed = bool(faults) and any(d["sev"] == "error" and d["file"] is None for d in diags)
         if io_failed and not inside:
@@ -252,7 +272,7 @@ def run_case(case, env):
             stats.setdefault("notes", []).append("io error under %s: %s" % ([c.line.split(" -> ")[0].split(" ", 1)[1].split("/")[-1] + " " + c.fault for c in res.calls if c.fault], [d["msg"] for d in diags if d["file"] is None][:1]))
         elif not inside:
             vs.append(V("diagnostic-range", "c04:no-diagnostic-in-binding",
-                        "planted %r at line %d cols [%d,%d) of %s but no error diagnostic lies within it; got %s\n%s"
+                        "planted %r at line %s cols [%s,%s) of %s but no error diagnostic lies within it; got %s\n%s"
                         % (plant["text"], line, c0, c1, plant["source"],
                            [(d["sev"], d["file"], d["line"], d["col"], d["len"]) for d in diags], res.stderr[-500:])))
         for v in vs:
